@@ -116,7 +116,7 @@ func (fc *FnCtx) doCall(res ssa.Value, c *ssa.CallCommon, in ssa.Instruction) {
 	}
 	// dynamic call through a function value: user code
 	if fc.con != nil && fc.con.Opts["dyncalls-pure"] != "" {
-		fc.e.assume("%s: calls through function values (record constructors of the TypeToRR table) only allocate", fc.name)
+		fc.e.assume("%s: calls through function values (the record constructors of the TypeToRR table, the Id generator) only allocate", fc.name)
 		rv := freshRes()
 		if len(rv.C) > 0 {
 			fc.assumeFreshRefs(rv)
